@@ -1448,20 +1448,24 @@ func (t *table) gc(now bigtable.Timestamp, done <-chan struct{}, force bool) {
 
 	i := 0
 	t.rows.Ascend(func(r *btpb.Row) bool {
-		changed := false
-		for _, fam := range r.Families {
-			gcRule := rules[fam.Name]
-			if gcRule != nil {
-				for _, col := range fam.Columns {
-					n := len(col.Cells)
-					col.Cells = applyGC(col.Cells, gcRule, now)
-					changed = changed || n != len(col.Cells)
+		// The iterator may hand out rows from a snapshot taken before the lock
+		// reversal below. Never write such a row back: collect the row as it
+		// is now, under the current hold of the lock.
+		if r = t.rows.Get(r.Key); r != nil {
+			changed := false
+			for _, fam := range r.Families {
+				gcRule := rules[fam.Name]
+				if gcRule != nil {
+					for _, col := range fam.Columns {
+						n := len(col.Cells)
+						col.Cells = applyGC(col.Cells, gcRule, now)
+						changed = changed || n != len(col.Cells)
+					}
 				}
 			}
-		}
-		if changed {
-			r, _ := scrubRow(r, t.cols())
-			t.rows.ReplaceOrInsert(r)
+			if changed {
+				t.updateRow(r)
+			}
 		}
 		i++
 		if i%100 != 0 {
